@@ -455,6 +455,27 @@ func lenGuarded(fn *ssa.Function, at *ssa.BasicBlock, arg ssa.Value) bool {
 		default:
 			return false
 		}
+		// err := check(arg, ...); if err != nil { exit }: the nil-error edge of a helper that
+		// returns a nil error only for a nil or length-checked slice
+		if cmp.Op == token.EQL || cmp.Op == token.NEQ {
+			ev, other := cmp.X, cmp.Y
+			if isNilConst(ev) {
+				ev, other = other, ev
+			}
+			if hc, isCall := ev.(*ssa.Call); isCall && isNilConst(other) && isErrorType(hc.Type()) {
+				if sc := hc.Common().StaticCallee(); sc != nil && !hc.Common().IsInvoke() {
+					nilEdge := 0
+					if cmp.Op == token.NEQ {
+						nilEdge = 1
+					}
+					for j, a := range hc.Common().Args {
+						if sameValue(a, arg) && i == nilEdge && lenChecker(sc, j, 0) {
+							return true
+						}
+					}
+				}
+			}
+		}
 		if isLenOf(cmp.X, arg) || isLenOf(cmp.Y, arg) {
 			return exitsWithout(b.Succs[1-i], at)
 		}
@@ -503,6 +524,36 @@ func lenGuarded(fn *ssa.Function, at *ssa.BasicBlock, arg ssa.Value) bool {
 		}
 	}
 	return in[at]
+}
+
+// lenChecker: g returns a nil error only when its j-th parameter is nil or has
+// had its length compared (every return that may yield nil is so guarded).
+func lenChecker(g *ssa.Function, j, depth int) bool {
+	if depth > 2 || len(g.Blocks) == 0 || j >= len(g.Params) || g.Signature.Results().Len() != 1 {
+		return false
+	}
+	n := 0
+	for _, b := range g.Blocks {
+		for _, in := range b.Instrs {
+			r, ok := in.(*ssa.Return)
+			if !ok || len(r.Results) != 1 {
+				continue
+			}
+			switch x := r.Results[0].(type) {
+			case *ssa.MakeInterface:
+				continue // a concrete error value: never nil
+			case *ssa.Call:
+				if nm := calleeName(x.Common()); nm == "errors.New" || nm == "fmt.Errorf" {
+					continue
+				}
+			}
+			n++
+			if !lenGuarded(g, b, g.Params[j]) {
+				return false
+			}
+		}
+	}
+	return n > 0
 }
 
 func isLenOf(v ssa.Value, arg ssa.Value) bool {
